@@ -156,6 +156,9 @@ def soak(hist):
         'gen/g0.c': 'int g0(void){return 0;}\n',
         'data.txt': 'd\n'}
     p = regen.Proj(files)
+    # (the install prefix lies inside the scratch directory: nothing can be
+    # written outside it even if DESTDIR were lost)
+    p.args += ['--prefix', os.path.join(p.root, 'pfx')]
     try:
         log = os.path.join(p.root, 'tools.log')
         for tool, real in (('cclog', 'gcc'), ('arlog', 'ar')):
